@@ -179,6 +179,58 @@ def wiring(chk, r, n):
                           {**case, "temp": T, "step_type": st, "intervals": np.array(intervals).tolist(), "first_bad_call": (bad or calls)[:1]},
                           "C01/wiring/structural-sweep")
 
+        # ---- inside a sweep: the likelihood a move is handed is the likelihood of the genotype at that moment, and the one it
+        # returns is that of the genotype it leaves (real moves, wrapped; sweeps as plain Python; cache on and off)
+        from mchap.assemble.likelihood import log_likelihood as _ll, new_log_likelihood_cache as _newc
+        stale = []
+
+        def wrap(real, kind):
+            import inspect
+            sig_ = inspect.signature(real.py_func)
+
+            def f_(*a_, **kw_):
+                b_ = sig_.bind(*a_, **kw_)
+                b_.apply_defaults()
+                return g_(b_.arguments["genotype"], b_.arguments["reads"], b_.arguments["llk"], b_.arguments.get("read_counts"), a_, kw_)
+
+            def g_(genotype, reads_, llk, rc_, a_, kw_):
+                kw = {"read_counts": rc_}
+                before = float(_ll(reads_, genotype, read_counts=kw.get("read_counts")))
+                if math.isfinite(before) and not (abs(float(llk) - before) <= 1e-9 * max(1.0, abs(before))):
+                    stale.append({"move": kind, "when": "handed", "carried": float(llk), "of_the_current_genotype": before,
+                                  "genotype": np.array(genotype).tolist()})
+                out = real(*a_, **kw_)
+                after = float(_ll(reads_, genotype, read_counts=kw.get("read_counts")))
+                if math.isfinite(after) and not (abs(float(out[0]) - after) <= 1e-9 * max(1.0, abs(after))):
+                    stale.append({"move": kind, "when": "returned", "carried": float(out[0]), "of_the_current_genotype": after,
+                                  "genotype": np.array(genotype).tolist()})
+                return out
+            return f_
+        g2 = g.copy()
+        llk2 = float(_ll(reads, g2, read_counts=counts))
+        if math.isfinite(llk2):
+            cache2 = _newc(ploidy, n_base, max(n_alleles)) if it % 2 else None
+            o_b, o_i = mutation.base_step, structural.interval_step
+            mutation.base_step, structural.interval_step = wrap(o_b, "base_step"), wrap(o_i, "interval_step")
+            try:
+                np.random.seed(r.randrange(2 ** 31))
+                for _ in range(3):
+                    llk2, cache2 = mutation.compound_step.py_func(g2, reads, llk2, np.array(n_alleles, dtype=np.int8), logU, inbreeding=F,
+                                                                  temp=T, read_counts=counts, cache=cache2)
+                    for st2 in (0, 1):
+                        iv = structural.random_breaks(r.randint(0, n_base - 1), n_base)
+                        llk2, cache2 = structural.compound_step.py_func(g2, reads, llk2, iv, logU, inbreeding=F, step_type=st2,
+                                                                        randomize=True, temp=T, read_counts=counts, cache=cache2)
+            finally:
+                mutation.base_step, structural.interval_step = o_b, o_i
+            chk.count("wiring:likelihood-carried-inside-sweeps")
+            fin = float(_ll(reads, g2, read_counts=counts))
+            if math.isfinite(fin) and not (abs(llk2 - fin) <= 1e-9 * max(1.0, abs(fin))):
+                stale.append({"move": "sweep", "when": "returned", "carried": llk2, "of_the_current_genotype": fin, "genotype": g2.tolist()})
+            if stale:
+                chk.violation("inside a sweep a move is handed / returns a likelihood that is not the likelihood of the genotype at that moment",
+                              {**case, "temp": T, **stale[0], "n_affected": len(stale)}, "C01/wiring/stale-likelihood")
+
         # ---- the assembler loop -> sweeps and exchange
         temps = np.array(sorted(r.sample([0.1, 0.25, 0.4, 0.6, 0.8], r.choice([1, 2])) + [1.0]))
         log = []
@@ -565,7 +617,11 @@ def run(tier, replay=None):
                                   "C01/exchange/state-swap")
 
         # ------------------------------------------------------------------ wiring of the sweeps: what the sampler hands to the moves
-        wiring(chk, r, {"warm": 1, "quick": 6, "thorough": 40}[tier])
+        mutation.random_choice, structural.random_choice = orig_m, orig_s          # the compiled moves run inside the wiring stream
+        try:
+            wiring(chk, r, {"warm": 1, "quick": 6, "thorough": 40}[tier])
+        finally:
+            mutation.random_choice, structural.random_choice = rec_m, rec_s
 
         # ------------------------------------------------------------------ implementation oracle: exact DB on enumerated instances
         n_inst = {"warm": 1, "quick": 3, "thorough": 14}[tier]
